@@ -113,6 +113,19 @@ def spellings(shape, xp, yp):
                         parts.append(f'{LONG[ax][q]}="{ph[(ax, q)]}"')
             return " ".join(parts)
         out.append(("radius", rad, {"half_len": True}))
+    # lengths spelled differently on the two axes (a radius on one, width/height on the other)
+    if shape in ("circle", "ellipse") and "l" in xp and "l" in yp and shape == "ellipse":
+        for xr, yr in ((True, False), (False, True)):
+            def mixed(ph, xr=xr, yr=yr):
+                parts = []
+                for ax, pair, rad in (("x", xp, xr), ("y", yp, yr)):
+                    for q in pair:
+                        if q == "l" and rad:
+                            parts.append(f'{"rx" if ax == "x" else "ry"}="{ph[(ax, q)]}"')
+                        else:
+                            parts.append(f'{LONG[ax][q]}="{ph[(ax, q)]}"')
+                return " ".join(parts)
+            out.append((f"mixed-{'rx' if xr else 'w'}-{'ry' if yr else 'h'}", mixed, {"half_x": xr, "half_y": yr}))
     return out
 
 
@@ -203,8 +216,9 @@ def build(td, wrong=False):
         attrs = fn(ph)
         vx = [f"v{int(ph[('x', q)][2:-2])}" for q in xp]
         vy = [f"v{int(ph[('y', q)][2:-2])}" for q in yp]
-        if opt.get("half_len"):
+        if opt.get("half_len") or opt.get("half_x"):
             vx = [mul("2.0", t) if q == "l" else t for q, t in zip(xp, vx)]
+        if opt.get("half_len") or opt.get("half_y"):
             vy = [mul("2.0", t) if q == "l" else t for q, t in zip(yp, vy)]
         x1, x2, ax_ = axis_box(xp, vx)
         y1, y2, ay_ = axis_box(yp, vy)
